@@ -1370,13 +1370,17 @@ func init() {
 		level: "model_checking",
 		rule: "breadth-first search over histories of start(A|B) / advance-past-CSRF-lifetime / callback operations, every history replayed on a fresh proxy+jars+provider through the real handlers, states de-duplicated on decrypted jar contents; " +
 			"in every state every pairing {state of login x: exact, 10-13 modifications} x {jar of A, jar of B, hand-made header: own, none, other login's, renamed, tampered value/timestamp/signature, signature stripped, re-signed with another secret, duplicates in both orders, all} x {code issued for x, code issued for the cookie's login} is sent to /oauth2/callback; " +
-			"non-trivial = the state nonce of a started login is intact and a CSRF cookie validly signed by this proxy is presented, so only the pairing decides",
+			"non-trivial = the state nonce of a started login is intact and a CSRF cookie validly signed by this proxy is presented, so only the pairing decides; " +
+			"second search (same technique, counters ext_*): Redis session store, cookie-expire 0 / cookie-csrf-expire 1m / cookie-expire shorter than cookie-csrf-expire with clock steps of 20s, 7m, 16m between start and callback, callbacks sent again (browser re-sends its last callback; recorded state + CSRF cookie with the spent code or a fresh one), and a second proxy instance (other cookie secret, other cookie name, both) at another port of the same host sharing the browsers' jars, every callback sent to either instance",
 		assumptions: []string{
 			"state match is read on the nonce component: a state whose nonce is intact but whose redirect component or encoding is altered is admissible either way (counted as class_ambiguous-accepted / not required to succeed)",
 			"the converse (login must complete) is required only for requests a browser sends from its jar while the history-only model says the login is outstanding; hand-made headers are judged in the only-if direction",
 			"hand-made requests are evaluated as self-loops: they touch no jar and the cookie session store keeps no server-side state (checked: the canonical state after each such request equals the state before)",
 			"every completion attempt uses a code the provider freshly issued (for the state's login, and where a cookie of another login is involved also for that login), so a rejection is never caused by code reuse",
 			"default --insecure-oidc-skip-nonce=true: the ID-token nonce does not back up the state check",
+			"'unexpired' is required of what a browser sends from its jar (Max-Age = cookie-csrf-expire); a hand-made request presenting the CSRF cookie after that lifetime but inside cookie-expire (or with cookie-expire=0) is admissible either way (class ambiguous-accepted-past-csrf-lifetime), and so are a replay of a completed login's state + CSRF cookie with a fresh code and a jar-sent callback after a cookie-expire that is shorter than cookie-csrf-expire",
+			"a session out of a replay whose code the provider had already redeemed is reported (C03/session-from-spent-code) although state and cookie match: such a session cannot stem from the login the callback claims to complete",
+			"callbacks sent to the instance that did not start the login carry a code issued for that instance's redirect URI, so that the provider's redirect-URI check does not stand in for the proxy's own check",
 		},
 		shards: func(tier string) int { return 16 },
 		run: func(c *Ctx) {
@@ -1384,6 +1388,10 @@ func init() {
 			debug.SetGCPercent(400)
 			c03Concurrent(c)
 			c03OtherTab(c)
+			c03Ext(c) // second search: Redis store, lifetimes, replays, second instance (c03_ext_test.go)
+			if c.Expired() {
+				return
+			}
 			cfgs := c03Configs(c.Quick())
 			bd := c03Bounds(c.Quick())
 			c.Info["configurations"] = len(cfgs)
@@ -1450,11 +1458,15 @@ func init() {
 			if c.Counters["states"] < 10 || c.Counters["cookies_jar"] == 0 {
 				c.Error("vacuous: %d states", c.Counters["states"])
 			}
+			c03ExtPost(c)
 		},
 		replay: func(c *Ctx, raw json.RawMessage) string {
 			var cr0 c03ConcReplay
 			if json.Unmarshal(raw, &cr0) == nil && cr0.Kind == "concurrent-callbacks" {
 				return c03ConcReplayOne(c, cr0)
+			}
+			if out, ok := c03ExtReplay(c, raw); ok {
+				return out
 			}
 			var cs c03Case
 			if err := json.Unmarshal(raw, &cs); err != nil {
